@@ -134,7 +134,7 @@ def run(ctx):
 
     # ---- 1. the real functions on boundary vectors; the same vectors through the translated formulas
     cases = [{"id": i, "pair": p, "params": q, "src": B6, "n": ctx.pick(40, 300)} for i, (p, q) in enumerate(insts)]
-    vs = ctx.run_cases(binary, "real", cases, timeout_ms=ctx.pick(60000, 240000), workers=ctx.pick(8, 12))
+    vs = ctx.run_cases(binary, "real", cases, timeout_ms=ctx.pick(60000, 240000), workers=4)
     translated_ok = {}
     for v in vs:
         p, q = insts[v["id"]]
@@ -191,7 +191,7 @@ def run(ctx):
 
     # ---- 3. Apalache: canary first, then every obligation (parallel)
     results = {}
-    with concurrent.futures.ThreadPoolExecutor(max_workers=ctx.pick(12, 16)) as ex:
+    with concurrent.futures.ThreadPoolExecutor(max_workers=int(os.environ.get("C10_APALACHE_PAR", "4"))) as ex:
         futs = {}
         futs[ex.submit(apalache, gen, "BitPackCanary.tla", ["SymbolicFloor"])] = "canary-true"
         futs[ex.submit(apalache, gen, "BitPackCanary.tla", ["Falsifiable"])] = "canary-false"
